@@ -160,6 +160,19 @@ theorem C06_consistency_partial (hp : plainNames tbl pr.licFiles = true) (h : ge
   · intro l p hm
     exact ⟨p, ((C06_without_extension_partial hp h l p).mp hm).1⟩
 
+/-- a report is produced exactly when no two LICENSES/ entries carry one identifier
+    (otherwise the tool stops with an error) -/
+theorem C06_defined_partial (hp : plainNames tbl pr.licFiles = true) :
+    (∃ r, generate tbl pr = some r) ↔ ((pr.licFiles.filter isLicFile).map (idOf tbl)).Nodup := by
+  rw [← findLicenses_some_iff pr.licFiles hp]
+  unfold generate
+  constructor
+  · rintro ⟨r, h⟩
+    cases hf : findLicenses tbl pr.licFiles with
+    | none => simp [hf] at h
+    | some fd => exact ⟨fd, rfl⟩
+  · rintro ⟨fd, h⟩; exact ⟨_, by rw [h]; rfl⟩
+
 /-- identifiers are compared as they are written: a differently-cased spelling
     is a different identifier (no normalisation anywhere in the model) -/
 theorem C06_case_sensitive (h : generate tbl pr = some r) (hp : plainNames tbl pr.licFiles = true)
